@@ -110,7 +110,7 @@ var c11Pairs = []struct {
 }
 
 func c11(r *rep.Run) {
-	r.SetBudget(120e9)
+	r.SetBudget(300e9)
 	if r.Thorough() {
 		r.SetBudget(1800e9)
 	}
